@@ -15,6 +15,29 @@ PROPS = {
                         "imports are committed before a restart (documented: VImport bypasses the log)",
                         "turbo refine after VImportCommit is allowed to finish (simulated time) before the pre-close read-out"],
     },
+    "C04": {
+        "level": "exploration", "quick": 1500, "thorough": 60000, "batch": 25,
+        "rule": ("seeded single-task histories (add / batch below and above the batch-path threshold / import / delete / re-add / "
+                 "metadata merge / reinforce / evolve / KV / link, with vacuum, refine, compress, snapshot, compaction and clock "
+                 "advances at any position) executed against the real engine and a map-based reference model; after EVERY operation "
+                 "error/no-error and the complete read-out (KV, index info and configs, VGet over the id universe by tolerance class, "
+                 "cursor walk, count, all edge views) must equal the model. Non-trivial: >=2 successful mutations; distinct = op-kind sequence."),
+        "real_vs_stub": REAL,
+        "expect_probes": [],
+        "assumptions": ["reference model written from DOCUMENTATION.md / package READMEs (DESIGN.md section 4.1)",
+                        "operations the documentation leaves undefined are skipped (probe undefined:*), never judged"],
+    },
+    "C05": {
+        "level": "exploration", "quick": 1500, "thorough": 60000, "batch": 25,
+        "rule": ("C04 histories in which the generator, knowing the model state, inserts operations that must be rejected (duplicate id "
+                 "alone / inside a batch / twice in one batch, unknown index or node, dimension mismatch alone / in a batch, invalid edge "
+                 "property key, duplicate index name, unsupported metric x precision, empty index without dimension, unknown or unsupported "
+                 "compression target), followed by further ops and restarts (with snapshots / compactions in between). Oracle: error returned, "
+                 "read-out unchanged, index still answers get/search, and after every restart the read-out equals what the accepted ops alone "
+                 "produce (reference model). Non-trivial: >=2 mutations and >=1 rejected op; distinct = op-kind sequence."),
+        "real_vs_stub": REAL,
+        "assumptions": ["reference model decides which operations must be rejected (classes listed in the property statement only)"],
+    },
 }
 
 
@@ -24,6 +47,18 @@ NOT_APPLICABLE["C20"] = ("pure functions of their input (text analysis, chunking
                          "no schedule, fault or interleaving for a simulator to decide; property-based testing territory, see DESIGN.md section 7")
 
 MANIFEST_TEXT = {
+    "C05": {
+        "text": "Seeded exploration of histories with generated must-reject operations: each must return an error, leave the full read-out unchanged and the index usable, and the state after every later restart (log replay, snapshot, compaction) must equal the reference model that ignored the rejected operations.",
+        "design_ref": "DESIGN.md section 6 C05",
+        "note": "Trusts the reference model's rejection rules (taken from the classes named in the property). Evolve that fails half-way and other unlisted error paths are not judged.",
+        "technique": "deterministic simulation: seeded histories with injected invalid operations + restart injection, refinement check against a reference model",
+    },
+    "C04": {
+        "text": "Seeded exploration: the real engine and a small executable reference model (maps of records, version lists for edges) are driven by the same history; after every operation the full read-out must equal the model's prediction and the accept/reject decision must agree. Background maintenance is driven by the simulated clock.",
+        "design_ref": "DESIGN.md section 6 C04",
+        "note": "Trusts the reference model (written from the documentation) and the tolerance classes for stored vectors (exact float32, 1e-6 unit-normalised cosine, one rounding step float16/int8, clip-not-wrap).",
+        "technique": "deterministic simulation: seeded histories + synctest clock driving background maintenance, operation-by-operation refinement check against a reference model",
+    },
     "C01": {
         "text": "Seeded exploration of operation histories against the real engine under a simulated clock: at every restart the complete public-API read-out after Open must equal the one taken before Close (nothing missing, nothing extra, configs, vectors by tolerance class, metadata, every edge view at every timestamp boundary). Sampling, not proof; each failure is minimised and replayable.",
         "design_ref": "DESIGN.md section 6 C01",
